@@ -125,14 +125,23 @@ func hasPending(menu []wlItem, pick []int) bool {
 }
 
 func wlScenarios(tier string, menu []wlItem, layouts []nodeLayout, queues []queueSetup, cfgs []schedrun.Config, kQuick, kThorough int) []clustermc.Scenario {
-	var out []clustermc.Scenario
 	k := kQuick
 	if tier == "thorough" {
 		k = kThorough
 	}
+	return wlScenariosRange(menu, layouts, queues, cfgs, 1, k)
+}
+
+// wlScenariosRange: all multisets of the menu with kMin..kMax workloads (used by the "several
+// actors in one cycle" families, whose small menus allow larger multisets).
+func wlScenariosRange(menu []wlItem, layouts []nodeLayout, queues []queueSetup, cfgs []schedrun.Config, kMin, kMax int) []clustermc.Scenario {
+	var out []clustermc.Scenario
 	for _, lay := range layouts {
 		for _, qs := range queues {
-			for _, pick := range multisetsUpTo(len(menu), k) {
+			for _, pick := range multisetsUpTo(len(menu), kMax) {
+				if len(pick) < kMin {
+					continue
+				}
 				if !hasPending(menu, pick) {
 					continue
 				}
